@@ -489,8 +489,11 @@ func switchTo(step uint64, me, nx int, site int32, finish bool) {
 
 func taskMain(i int) {
 	park0(i)
+	// deferred, so that runtime.Goexit in a library goroutine still hands the
+	// baton on (a panic keeps propagating and ends the process, as it would
+	// for a user)
+	defer finish(i)
 	tasks[i].fn()
-	finish(i)
 }
 
 //go:norace
